@@ -53,6 +53,27 @@ Splice(inner, repls) ==
       fin == FoldLeft(step, <<<<>>, 0>>, ord)
   IN fin[1] \o SubSeq(inner, fin[2] + 1, n)
 
+
+(* Provenance of every byte of Splice(inner, repls) for an inner text of    *)
+(* length n: either inner byte j, or byte i of the content of replacement r *)
+(* (index into repls, call order) which was spliced in at inner offset at.  *)
+ProvIn(j) == [k |-> "in", j |-> j, r |-> 0, i |-> 0, at |-> 0]
+ProvRp(r, i, at) == [k |-> "rp", j |-> 0, r |-> r, i |-> i, at |-> at]
+
+SpliceProv(n, repls) ==
+  LET ord == StableOrder(repls)
+      step(acc, ri) ==
+        LET r == repls[ri]
+            pos == acc[2]
+            upto == MinN(r.s, n)
+            copied == IF pos < upto THEN [x \in 1..(upto - pos) |-> ProvIn(pos + x)]
+                      ELSE <<>>
+            at == MaxN(pos, upto)
+            content == [x \in 1..Len(r.c) |-> ProvRp(ri, x, at)]
+        IN <<acc[1] \o copied \o content, MinN(MaxN(pos, r.e), n)>>
+      fin == FoldLeft(step, <<<<>>, 0>>, ord)
+  IN fin[1] \o [x \in 1..(n - fin[2]) |-> ProvIn(fin[2] + x)]
+
 -----------------------------------------------------------------------------
 RECURSIVE TextOf(_)
 TextOf(t) ==
@@ -130,7 +151,7 @@ AsciiConsistent(t) ==
                         /\ t.inner = <<>>
     [] t.k = "default" ->
          IsAscii(t.b) /\ (t.map = <<>> \/ MapConsistent(t.map[1], t.b))
-    [] t.k = "script" -> FALSE
+    [] t.k = "script" -> IsAscii(t.b)
     [] t.k = "concat" ->
          LET ch == Children(t) IN \A i \in 1..Len(ch) : AsciiConsistent(ch[i])
     [] t.k = "replace" ->
@@ -138,4 +159,31 @@ AsciiConsistent(t) ==
          /\ \A i \in 1..Len(t.repls) :
               IsAscii(t.repls[i].c) /\ t.repls[i].s <= t.repls[i].e
     [] t.k \in {"cached", "box"} -> AsciiConsistent(t.inner)
+
+(* every (file name, has content, content) a tree can announce: the domain  *)
+(* of C04 / C06 requires that a name shared between leaves carries the same *)
+(* content everywhere                                                       *)
+MapFileEntries(m) ==
+  {<<FileOf(m, i - 1), HasContent(m, i - 1), ContentOf(m, i - 1)>> :
+     i \in 1..Len(m.sources)}
+
+RECURSIVE TreeFileEntries(_)
+TreeFileEntries(t) ==
+  CASE t.k = "orig" -> {<<t.name, t.b # <<>>, t.b>>}
+    [] t.k = "sms" ->
+         MapFileEntries(t.map)
+         \cup (IF t.inner = <<>> THEN {} ELSE MapFileEntries(t.inner[1]))
+    [] t.k = "default" -> IF t.map = <<>> THEN {} ELSE MapFileEntries(t.map[1])
+    [] t.k = "script" ->
+         {<<t.ev[i].name, t.ev[i].c # <<>> /\ t.ev[i].c # <<<<>>>>,
+            IF t.ev[i].c = <<>> THEN <<>> ELSE t.ev[i].c[1]>> :
+            i \in {j \in 1..Len(t.ev) : t.ev[j].t = "S"}}
+    [] t.k = "concat" ->
+         LET ch == Children(t) IN UNION {TreeFileEntries(ch[i]) : i \in 1..Len(ch)}
+    [] t.k \in {"replace", "cached", "box"} -> TreeFileEntries(t.inner)
+    [] OTHER -> {}
+
+SharedNamesAgreeInTree(t) ==
+  LET all == TreeFileEntries(t)
+  IN \A x \in all : \A y \in all : x[1] = y[1] => x = y
 =============================================================================
